@@ -1,6 +1,7 @@
 open BinInt
 open BinNums
 open Bytes0
+open Consts
 open Datatypes
 open List0
 open PeanoNat
@@ -19,6 +20,10 @@ type verdict =
 val md5_verdict :
   (byte list -> 'a1) -> ('a1 -> 'a1 -> bool) -> byte list -> byte list -> 'a1
   line list -> verdict
+
+val recv_v2_sched :
+  (byte list -> 'a1) -> ('a1 -> 'a1 -> bool) -> (byte list list -> byte list
+  option) -> nat option -> coq_Z -> byte list list -> 'a1 line list -> verdict
 
 val recv_v2 :
   (byte list -> 'a1) -> ('a1 -> 'a1 -> bool) -> (byte list list -> byte list
